@@ -236,11 +236,164 @@ pub fn gen_random(rng: &mut SmallRng, max_ops: usize, allow_private: bool) -> Pr
     Program { stmts }
 }
 
+/// Sum-of-products family: single-use products interleaved with sums that consume them in
+/// varying orders (the shapes mul-add fusion and its ordering analysis key on), optional
+/// sub/div (backwards ops) and a private input.
+pub fn gen_fusion_family(rng: &mut SmallRng) -> Program {
+    let mut stmts = Vec::new();
+    let n_in = rng.random_range(3..=6);
+    let mut inputs: Vec<usize> = Vec::new();
+    for i in 0..n_in {
+        if i == 1 && rng.random_range(0..4) == 0 {
+            stmts.push(Stmt::Private);
+        } else {
+            stmts.push(Stmt::Public);
+        }
+        inputs.push(i);
+    }
+    let mut nv = n_in;
+    let mut fresh_products: Vec<usize> = Vec::new();
+    let mut sums: Vec<usize> = Vec::new();
+    let n_ops = rng.random_range(3..=8);
+    for _ in 0..n_ops {
+        let any = |rng: &mut SmallRng, inputs: &Vec<usize>, sums: &Vec<usize>| {
+            if !sums.is_empty() && rng.random_range(0..2) == 0 {
+                sums[rng.random_range(0..sums.len())]
+            } else {
+                inputs[rng.random_range(0..inputs.len())]
+            }
+        };
+        let k = rng.random_range(0..10);
+        if k < 4 || (fresh_products.is_empty() && k < 7) {
+            // product of two operands
+            let a = any(rng, &inputs, &sums);
+            let b = any(rng, &inputs, &sums);
+            stmts.push(Stmt::Mul(a, b));
+            fresh_products.push(nv);
+            nv += 1;
+        } else if k < 8 && !fresh_products.is_empty() {
+            // consume a product in a sum: addend is an input, an earlier sum or another product
+            let pi = rng.random_range(0..fresh_products.len());
+            let m = fresh_products.remove(pi);
+            let addend = if !fresh_products.is_empty() && rng.random_range(0..4) == 0 {
+                let qi = rng.random_range(0..fresh_products.len());
+                fresh_products.remove(qi)
+            } else {
+                any(rng, &inputs, &sums)
+            };
+            stmts.push(if rng.random_range(0..2) == 0 { Stmt::Add(m, addend) } else { Stmt::Add(addend, m) });
+            sums.push(nv);
+            nv += 1;
+        } else if k == 8 {
+            let a = any(rng, &inputs, &sums);
+            let b = any(rng, &inputs, &sums);
+            stmts.push(Stmt::Add(a, b));
+            sums.push(nv);
+            nv += 1;
+        } else {
+            let a = any(rng, &inputs, &sums);
+            let b = any(rng, &inputs, &sums);
+            stmts.push(if rng.random_range(0..3) == 0 { Stmt::Div(a, b) } else { Stmt::Sub(a, b) });
+            sums.push(nv);
+            nv += 1;
+        }
+    }
+    if rng.random_range(0..3) == 0 && nv > 1 {
+        let a = rng.random_range(0..nv);
+        let b = rng.random_range(0..nv);
+        stmts.push(Stmt::Connect(a, b));
+    }
+    Program { stmts }
+}
+
+/// Sum-of-products DAG emitted in a random topological order: `np` single-use products,
+/// `ns` plain sums, and one consuming add per product whose addend is an input, a plain sum
+/// or an earlier consuming add. The interleaving is what the fusion ordering analysis sees.
+pub fn gen_fusion_dag(rng: &mut SmallRng) -> Program {
+    #[derive(Clone, Copy)]
+    enum Src {
+        In(usize),
+        Node(usize),
+    }
+    #[derive(Clone, Copy)]
+    enum Kind {
+        Mul,
+        Add,
+        Sub,
+    }
+    let n_in = rng.random_range(3..=6);
+    let np = rng.random_range(1..=3);
+    let ns = rng.random_range(0..=2);
+    let mut nodes: Vec<(Kind, Src, Src)> = Vec::new();
+    let inp = |rng: &mut SmallRng| Src::In(rng.random_range(0..n_in));
+    for _ in 0..np {
+        nodes.push((Kind::Mul, inp(rng), inp(rng)));
+    }
+    let mut addend_pool: Vec<usize> = Vec::new();
+    for _ in 0..ns {
+        let k = if rng.random_range(0..4) == 0 { Kind::Sub } else { Kind::Add };
+        nodes.push((k, inp(rng), inp(rng)));
+        addend_pool.push(nodes.len() - 1);
+    }
+    for pi in 0..np {
+        let addend = if !addend_pool.is_empty() && rng.random_range(0..3) != 0 {
+            Src::Node(addend_pool[rng.random_range(0..addend_pool.len())])
+        } else {
+            inp(rng)
+        };
+        let (a, b) = if rng.random_range(0..2) == 0 { (Src::Node(pi), addend) } else { (addend, Src::Node(pi)) };
+        nodes.push((Kind::Add, a, b));
+        addend_pool.push(nodes.len() - 1);
+    }
+    // random topological order
+    let n = nodes.len();
+    let deps = |i: usize| -> Vec<usize> {
+        let mut d = Vec::new();
+        for s in [nodes[i].1, nodes[i].2] {
+            if let Src::Node(j) = s {
+                d.push(j);
+            }
+        }
+        d
+    };
+    let mut placed: Vec<Option<usize>> = vec![None; n];
+    let mut stmts: Vec<Stmt> = Vec::new();
+    for i in 0..n_in {
+        if i == 1 && rng.random_range(0..5) == 0 {
+            stmts.push(Stmt::Private);
+        } else {
+            stmts.push(Stmt::Public);
+        }
+    }
+    let mut nv = n_in;
+    for _ in 0..n {
+        let ready: Vec<usize> = (0..n).filter(|&i| placed[i].is_none() && deps(i).iter().all(|&j| placed[j].is_some())).collect();
+        let i = ready[rng.random_range(0..ready.len())];
+        let v = |s: Src| match s {
+            Src::In(k) => k,
+            Src::Node(j) => placed[j].unwrap(),
+        };
+        let (a, b) = (v(nodes[i].1), v(nodes[i].2));
+        stmts.push(match nodes[i].0 {
+            Kind::Mul => Stmt::Mul(a, b),
+            Kind::Add => Stmt::Add(a, b),
+            Kind::Sub => Stmt::Sub(a, b),
+        });
+        placed[i] = Some(nv);
+        nv += 1;
+    }
+    Program { stmts }
+}
+
 /// Exhaustive small scope: prelude [Public, Public, Const(2)] (+Private when `with_private`),
 /// then `k` operation statements over all operand choices, then at most one trailing assertion.
 /// `visit` returns false to stop early.
-pub fn enumerate_small(k: usize, kinds: &[&str], visit: &mut dyn FnMut(Program) -> bool) {
-    let prelude = vec![Stmt::Public, Stmt::Public, Stmt::Const(2)];
+pub fn enumerate_small(k: usize, kinds: &[&str], with_private: bool, visit: &mut dyn FnMut(Program) -> bool) {
+    let prelude = if with_private {
+        vec![Stmt::Public, Stmt::Private, Stmt::Const(2)]
+    } else {
+        vec![Stmt::Public, Stmt::Public, Stmt::Const(2)]
+    };
     fn rec(cur: &mut Vec<Stmt>, nv: usize, left: usize, kinds: &[&str], visit: &mut dyn FnMut(Program) -> bool) -> bool {
         if left == 0 {
             // assertions: none, connect(i<j), assert_zero(i), assert_bool(i)
